@@ -26,7 +26,7 @@ p='$E'; s=open(p).read()
 s=s.replace('        case ast.Lt():\n            return libsbml.AST_RELATIONAL_LT','        case ast.Lt():\n            return libsbml.AST_RELATIONAL_LEQ'); open(p,'w').write(s)
 PY"
 run "M11 IdentifierReplacer does not rename" "sed -i 's/id=self.mapping.get(node.id, node.id),/id=node.id,/' $E"
-run "M12 kinetic law arguments reversed" "sed -i 's/setMath(_sbmlify_fn(rxn.fn, rxn.args))/setMath(_sbmlify_fn(rxn.fn, rxn.args[::-1]))/' $E"
+run "M12 kinetic law arguments reversed" "sed -i -e 's/setMath(_sbmlify_fn(rxn.fn, rxn.args))/setMath(_sbmlify_fn(rxn.fn, rxn.args[::-1]))/' -e 's/setMath(_sbmlify_fn(rxn.fn, rxn.args, ids))/setMath(_sbmlify_fn(rxn.fn, rxn.args[::-1], ids))/' $E"
 run "M13 reactant iff factor <= 0 -> > 0 (sign test inverted)" "sed -i 's/if factor < 0$/if factor > 0/' $E"
 run "M14 arity check dropped for unary table" "python3 - <<'PY'
 p='$E'; s=open(p).read()
@@ -43,3 +43,13 @@ s=s.replace('    model = pysbml.load_and_transform_model(file)\n    out_name',' 
 s=s.replace('def read(file: Path) -> Model:','_TRANSFORMED: dict = {}\n\n\ndef read(file: Path) -> Model:'); open(p,'w').write(s)
 PY"
 run "M18 IdentifierReplacer looks a renamed name up again (chains a->b->c collapse)" "sed -i 's/id=self.mapping.get(node.id, node.id),/id=self.mapping.get(self.mapping.get(node.id, node.id), self.mapping.get(node.id, node.id)),/' $E"
+
+# ---- closing pass (2026-10-02) ----
+run "M19 _handle_body converts only the last statement (= seeded/C08-4)" "patch -p1 -s < /verif/seeded/C08-4/patch.diff"
+run "M20 RE_TO_SBML = Unicode-aware \\W (= seeded/C08-5)" "patch -p1 -s < /verif/seeded/C08-5/patch.diff"
+run "M21 remainder moved from UNARY to BINARY (= seeded/C08-6)" "patch -p1 -s < /verif/seeded/C08-6/patch.diff"
+run "M22 an assignment statement is exported as its value (rebinding silently dropped)" "python3 - <<'PY'
+p='$E'; s=open(p).read()
+s=s.replace('        case ast.UnaryOp():\n            return _convert_unaryop(node)','        case ast.Assign():\n            return _convert_node(node.value)\n        case ast.UnaryOp():\n            return _convert_unaryop(node)'); open(p,'w').write(s)
+PY"
+run "M23 the escaped class forgets the upper-case range boundary ([^0-9_a-zA-Z] -> [^0-9_a-zA-z])" "sed -i 's/\[^0-9_a-zA-Z\]/[^0-9_a-zA-z]/' $E"
